@@ -78,25 +78,29 @@ package fsm
 //@ results err
 //@ modifies nothing
 //@ func snapshot.persistAutopilot
-//@ trusted
+//@ props C02
 //@ opt record persistAutopilot
 //@ results err
-//@ modifies nothing
+//@ requires s != nil && s.state != nil
+//@ ensures[config-written-if-any] err == nil ==> ite(config == nil, outLen() == old(outLen()), outLen() == old(outLen()) + 2 && outIsBytes(old(outLen())) && eq(outBytes(old(outLen())), byte1(structs.AutopilotRequestType)) && !outIsBytes(old(outLen()) + 1) && outObj(old(outLen()) + 1) == any(config))
 //@ func snapshot.persistConfigEntries
 //@ trusted
 //@ opt record persistConfigEntries
 //@ results err
 //@ modifies nothing
 //@ func snapshot.persistConnectCA
-//@ trusted
+//@ props C02
 //@ opt record persistConnectCA
 //@ results err
-//@ modifies nothing
+//@ requires s != nil && s.state != nil
+//@ ensures[every-root-written] err == nil ==> outLen() == old(outLen()) + 2*len(roots) && forall j int :: 0 <= j && j < len(roots) ==> outIsBytes(old(outLen()) + 2*j) && eq(outBytes(old(outLen()) + 2*j), byte1(structs.ConnectCARequestType)) && !outIsBytes(old(outLen()) + 2*j + 1) && outObj(old(outLen()) + 2*j + 1) == any(roots[j])
+//@ loop 1 invariant[written-so-far] outLen() == old(outLen()) + 2*range1_idx && forall j int :: 0 <= j && j < range1_idx ==> outIsBytes(old(outLen()) + 2*j) && eq(outBytes(old(outLen()) + 2*j), byte1(structs.ConnectCARequestType)) && !outIsBytes(old(outLen()) + 2*j + 1) && outObj(old(outLen()) + 2*j + 1) == any(roots[j])
 //@ func snapshot.persistConnectCAConfig
-//@ trusted
+//@ props C02
 //@ opt record persistConnectCAConfig
 //@ results err
-//@ modifies nothing
+//@ requires s != nil && s.state != nil
+//@ ensures[config-written-if-any] err == nil ==> ite(config == nil, outLen() == old(outLen()), outLen() == old(outLen()) + 2 && outIsBytes(old(outLen())) && eq(outBytes(old(outLen())), byte1(structs.ConnectCAConfigType)) && !outIsBytes(old(outLen()) + 1) && outObj(old(outLen()) + 1) == any(config))
 //@ func snapshot.persistConnectCAProviderState
 //@ trusted
 //@ opt record persistConnectCAProviderState
@@ -168,3 +172,28 @@ package fsm
 //@ results err
 //@ requires s != nil && s.state != nil
 //@ ensures[every-table-persisted] err == nil ==> called("persistACLs") && lastErr("persistACLs") == nil && called("persistAutopilot") && lastErr("persistAutopilot") == nil && called("persistConfigEntries") && lastErr("persistConfigEntries") == nil && called("persistConnectCA") && lastErr("persistConnectCA") == nil && called("persistConnectCAConfig") && lastErr("persistConnectCAConfig") == nil && called("persistConnectCAProviderState") && lastErr("persistConnectCAProviderState") == nil && called("persistFeatureGates") && lastErr("persistFeatureGates") == nil && called("persistFederationStates") && lastErr("persistFederationStates") == nil && called("persistIndex") && lastErr("persistIndex") == nil && called("persistKVs") && lastErr("persistKVs") == nil && called("persistLegacyIntentions") && lastErr("persistLegacyIntentions") == nil && called("persistNodes") && lastErr("persistNodes") == nil && called("persistPeeringSecrets") && lastErr("persistPeeringSecrets") == nil && called("persistPeeringTrustBundles") && lastErr("persistPeeringTrustBundles") == nil && called("persistPeerings") && lastErr("persistPeerings") == nil && called("persistPreparedQueries") && lastErr("persistPreparedQueries") == nil && called("persistResources") && lastErr("persistResources") == nil && called("persistSessions") && lastErr("persistSessions") == nil && called("persistSystemMetadata") && lastErr("persistSystemMetadata") == nil && called("persistTombstones") && lastErr("persistTombstones") == nil && called("persistVirtualIPs") && lastErr("persistVirtualIPs") == nil
+
+//@ func restoreSession
+//@ props C02
+//@ results err
+//@ requires restore != nil
+//@ ensures[decoded-session-stored] err == nil ==> T_sessions(req.ID) != nil && T_sessions(req.ID).ID == req.ID && T_sessions(req.ID).Node == req.Node && T_sessions(req.ID).ModifyIndex == req.ModifyIndex && T_sessions(req.ID).CreateIndex == req.CreateIndex && T_sessions(req.ID).Behavior == req.Behavior && T_sessions(req.ID).TTL == req.TTL
+
+//@ func restoreConnectCA
+//@ props C02
+//@ results err
+//@ requires restore != nil
+//@ ensures[decoded-root-stored] err == nil ==> T_connect_ca_roots(req.ID) != nil && T_connect_ca_roots(req.ID).ID == req.ID && T_connect_ca_roots(req.ID).Active == req.Active && T_connect_ca_roots(req.ID).ModifyIndex == req.ModifyIndex
+
+//@ func restoreIndex
+//@ props C02
+//@ results err
+//@ requires restore != nil
+//@ ensures[decoded-index-entry-stored] err == nil ==> T_index(req.Key) != nil && T_index(req.Key).Value == req.Value
+
+//@ func restoreAutopilot
+//@ props C02
+//@ results err
+//@ requires restore != nil
+//@ ensures[decoded-config-stored] err == nil ==> T_autopilot_config() != nil && T_autopilot_config().ModifyIndex == req.ModifyIndex && T_autopilot_config().CreateIndex == req.CreateIndex
+
